@@ -16,6 +16,27 @@ Proof.
   destruct H as [H|H]; [discriminate|]. apply IH; exact H.
 Qed.
 
+(* validator_of never fails on a type NAME: whatever is declared, a key of VALIDATOR is
+   selected as long as the key string exists *)
+Lemma resolve_total keys t : mem_str T_STRING keys = true -> exists k, resolve keys t = Some k /\ In k keys.
+Proof.
+  intros Hs. unfold resolve. rewrite Hs.
+  assert (Hin : In T_STRING keys) by (apply mem_str_In; exact Hs).
+  destruct t as [|c t']; [exists T_STRING; split; [reflexivity|exact Hin]|].
+  destruct (mem_str (c :: t') keys) eqn:E1; [exists (c :: t'); split; [reflexivity|apply mem_str_In; exact E1]|].
+  destruct (mem_str (local_name (c :: t')) keys) eqn:E2; [eexists; split; [reflexivity|apply mem_str_In; exact E2]|].
+  destruct (find_ci keys (lower_ascii (local_name (c :: t')))) as [k|] eqn:E3.
+  - exists k. split; [reflexivity|]. unfold find_ci in E3. apply find_some in E3 as [H _]. exact H.
+  - exists T_STRING. split; [reflexivity|exact Hin].
+Qed.
+
+Lemma valid_no_keyerror prim keys t v :
+  mem_str T_STRING keys = true -> valid prim keys t v = ok \/ valid prim keys t v = Err NOT_VALID.
+Proof.
+  intros Hs. destruct (resolve_total keys t Hs) as [k [Hk _]]. unfold valid. rewrite Hk.
+  destruct (prim k v); [left|right]; reflexivity.
+Qed.
+
 Section V.
   Variable prim : str -> str -> bool.
   Variable keys : list str.
